@@ -111,6 +111,18 @@ Theorem C18_oracle_sound_takeover : forall old version ms ml fr pc,
 Proof. exact c18_takeover_sound. Qed.
 Print Assumptions C18_oracle_sound_takeover.
 
+(* forwarding: a transaction handed to the etcd proxy never installs a revision on the follower; tied to the real
+   service.NewPeerService (real syncer + real etcd proxy over gRPC) by the delayed-forward scenario of the driver *)
+Theorem C18_forward_never_sets : forall k l,
+  (k = ETxnCreate \/ k = ETxnDelete \/ k = ETxnUpdate \/ k = ETxnCompact \/ k = ETxnInvalid) ->
+  f_set (roles_effects k Follower true l) = None /\ f_backend (roles_effects k Follower true l) = BNone.
+Proof. exact forward_never_sets. Qed.
+Print Assumptions C18_forward_never_sets.
+Theorem C18_oracle_sound_forward : forall w r sets h1 h2 c,
+  c18_check (ForwardCase w r sets h1 h2 c) = true -> c18_oracle (ForwardCase w r sets h1 h2 c) = None.
+Proof. exact c18_forward_sound. Qed.
+Print Assumptions C18_oracle_sound_forward.
+
 (* non-vacuity *)
 (* the schedule of the former finding C18-F1: A's late install of 10 is dropped, both reads scan at 12 *)
 Example C18_set_race_harmless :
